@@ -52,6 +52,7 @@ type Contract struct {
 	Panics   []Clause // panics when <cond>
 	Asserts  []AtAssert
 	Snaps    []Track  // snapshot <name> after call <callee>
+	Callees  map[string]*Contract // assumed contracts of dynamic callees (function-typed fields, parameters), by source name
 	Params   []string // explicit parameter names (trusted specs for functions without source names)
 	Used     bool
 }
@@ -110,7 +111,7 @@ var clauseKeywords = map[string]bool{
 	"func": true, "fun": true, "pred": true, "requires": true, "ensures": true, "modifies": true, "pure": true,
 	"ghost": true, "loop": true, "nopanic": true, "trusted": true, "panics": true, "track": true, "global-invariant": true,
 	"monitor": true, "invariant": true, "transition": true, "lemma": true, "axiom": true, "inline": true, "assert": true,
-	"props": true, "params": true, "protects": true, "snapshot": true, "abstract": true,
+	"props": true, "params": true, "protects": true, "snapshot": true, "abstract": true, "callee": true,
 }
 
 type rawClause struct {
@@ -389,6 +390,47 @@ func (db *SpecDB) LoadSpecFile(path, pkgPath string) error {
 					return fmt.Errorf("%s:%d: %v", path, rc.line, err)
 				}
 				cur.Ghosts = append(cur.Ghosts, GhostDef{strings.TrimSpace(rc.rest[:i]), e})
+			case "callee":
+				// callee <name>: pure | ensures <expr> | modifies <targets>
+				i := strings.Index(rc.rest, ":")
+				if i < 0 {
+					return fmt.Errorf("%s:%d: callee needs '<name>: clause'", path, rc.line)
+				}
+				name := strings.TrimSpace(rc.rest[:i])
+				body := strings.TrimSpace(rc.rest[i+1:])
+				if cur.Callees == nil {
+					cur.Callees = map[string]*Contract{}
+				}
+				cc := cur.Callees[name]
+				if cc == nil {
+					cc = &Contract{Key: cur.Key + "/callee:" + name, Name: name, PkgPath: pkgPath, File: path, Line: rc.line, Trusted: true, Loops: map[int][]Clause{}}
+					cur.Callees[name] = cc
+				}
+				switch {
+				case body == "pure":
+					cc.Pure = true
+				case strings.HasPrefix(body, "ensures"):
+					c, err := mk(rawClause{"ensures", strings.TrimSpace(body[len("ensures"):]), rc.line}, fmt.Sprint(len(cc.Ensures)+1))
+					if err != nil {
+						return err
+					}
+					cc.Ensures = append(cc.Ensures, c)
+				case strings.HasPrefix(body, "modifies"):
+					rest := strings.TrimSpace(body[len("modifies"):])
+					if rest == "*" {
+						cc.ModAll = true
+					} else {
+						for _, part := range splitTop(rest, ',') {
+							e, err := ParseExpr(part)
+							if err != nil {
+								return fmt.Errorf("%s:%d: %v", path, rc.line, err)
+							}
+							cc.Modifies = append(cc.Modifies, e)
+						}
+					}
+				default:
+					return fmt.Errorf("%s:%d: unknown callee clause %q", path, rc.line, body)
+				}
 			case "snapshot":
 				// snapshot <name> after call <callee>
 				fs := strings.Fields(rc.rest)
